@@ -800,4 +800,6 @@ def run(ctx):
               lambda g: g.file.startswith(MODULES + '/network/') or g.file.startswith(MODULES + '/util/'), 'DNS datagram path')
     from tbxlint import progress
     ctx.guard(progress.run_files, ctx, prog, 'C15.R15', ['network/dns_request.cpp', 'network/udp_socket.cpp', 'util/serializer.cpp', 'eventx/timeout_monitor_impl.hpp'], 'DNS datagram path', floor=1)
+    from rules import C15_replay
+    ctx.guard(C15_replay.r16, ctx, prog)
     return prog
